@@ -259,6 +259,9 @@ def check(ctx):
     ctx.rule("R11", "for ANY status block: an output byte that is not in the item's label list (one past the last option included) reads 'Unknown' - not wired to a known device - and never raises out of the scan (C11.R4's enum decode over all 256 raw bytes borrowed)")
     from .c11 import enum_decode_total as _edt
     _edt(ctx.borrowed("R11", "C11"), repo, "R4")
+    ctx.rule("R12", "the inventory does not drift: on model facades of both classes every read-only member that returns devices is read three times - the pump, blower, light and sensor lists the scan left are unchanged and every read gives the same devices (a member that builds its answer by extending one of the facade's own lists files blowers under the pumps and lists them again on every read)")
+    from ..facademodel import inventory_reads_are_pure as _irp
+    _irp(ctx, repo, "R12")
     ctx.rule("R9", "a pump's mode list is its own demand item's label list, whatever other pumps exist in the process: two GeckoPump objects built by the constructor in one interpreter - same device key and demand tag, different label lists (as for P3 on inXM vs the other platforms) - each report their own list, in either order of asking")
     from ..absint import ClassRef as _CR, Interp as _I, PyRaise as _PR, Undecided as _U
     from ..facademodel import Rec as _Rec, accessor as _acc, model_facade as _mf
